@@ -16,6 +16,13 @@ import CelmaVerif.Model.TextBlock
   * `doPrint`, `keyStr`, `maxLength`, `printArguments`, `print`   argument_desc.cpp
   * `usage`                               `Handler::usage()` without usage texts, "usage continues" set
   * `findArg`, `getArgDesc`, `helpArgument`   argument_container.cpp, argument_desc.cpp, handler.cpp
+  * `SubHandler`, `Tree`                  sub-group handlers: `Handler( Handler& main_ah, int flag_set)` +
+                                          `addArgument( key, Handler& subGroup, desc)`; ONE `UsageParams` object
+                                          for the whole tree (`mpUsageParams( main_ah.mpUsageParams)`)
+  * `Ev`, `evalEvs`, `Tree.usageMain`, `Tree.usageSub`, `Tree.helpArgumentSlash`, `Tree.helpArgumentSub`
+                                          the standard arguments of the main handler and of a sub-group handler
+                                          on one command line, then the usage / the help of the main or of a
+                                          sub-group handler
 
   Output model: an `std::ostream` that only ever receives complete lines here is the list of its lines
   (each one was ended by `std::endl`); `emit cur ls` is "the open line `cur`, then what
@@ -23,7 +30,7 @@ import CelmaVerif.Model.TextBlock
   The byte-exact text is `unlines`.
 
   Not modelled (outside C18 or outside the listing layer): usage texts (`IUsageText`), `Groups::displayUsage`,
-  sub-group handlers (and therefore the `a/b` form of `helpArgument`), `printProperties` (help-arg-full),
+  sub-groups below a sub-group (the tree has depth 2), `printProperties` (help-arg-full),
   `setCaption`, value units, the evaluation of the command line that leads to the help arguments
   (shared model A; here: the effect of the standard arguments on `UsageParams` only).
 -/
@@ -104,6 +111,10 @@ structure Arg where
   checks       : List (String × Str) := []
   /-- `toString()` of the constraints -/
   constraints  : List Str := []
+  /-- `some k`: a `TypedArgSubGroup` that enters sub-group handler `k`; such an argument is stored in
+      `Handler::mSubGroupArgs`, every other one in `Handler::mArguments`; the description list
+      (`ArgumentDesc::mArguments`) holds both kinds in definition order -/
+  subGroup     : Option Nat := none
 deriving Repr
 
 /-- `isReplaced()` -/
@@ -207,10 +218,20 @@ def Switch.apply (f : Flags) (u : UsageParams) : Switch → UsageParams
   | .helpShort => { u with contents := .shortOnly }
   | .helpLong => { u with contents := .longOnly }
 
+/-- `Handler::mArguments` (the plain arguments) -/
+def plainArgs (args : List Arg) : List Arg := args.filter fun a => a.subGroup.isNone
+/-- `Handler::mSubGroupArgs` -/
+def subGroupArgs (args : List Arg) : List Arg := args.filter fun a => a.subGroup.isSome
+/-- the container an argument is stored in, next to those already there -/
+def sameContainer (a : Arg) (args : List Arg) : List Arg :=
+  if a.subGroup.isSome then subGroupArgs args else plainArgs args
+
 /-- `Handler::addArgument()` followed by the chained modifiers.  A rejected key leaves the handler
-    unchanged; a rejected modifier leaves the argument defined with what was applied before. -/
+    unchanged; a rejected modifier leaves the argument defined with what was applied before.
+    The key is checked against the container the argument goes into only: `mArguments` and `mSubGroupArgs`
+    are two `Storage` objects (as coded, a plain argument and a sub-group argument may have the same key). -/
 def Handler.addArgument (h : Handler) (a : Arg) (mods : List Mod) : Handler × Option Exc :=
-  if !storageAccepts h.args a.key then (h, some .invalid_argument)
+  if !storageAccepts (sameContainer a h.args) a.key then (h, some .invalid_argument)
   else
     let r := applyMods a mods
     ({ h with args := h.args ++ [r.1] }, r.2)
@@ -377,15 +398,197 @@ def getArgDesc : List Arg → Key → Str
   | [], _ => []
   | a :: as, k => if keyEq a.key k then a.desc else getArgDesc as k
 
+/-- the lookup of `Handler::helpArgument()` (as repaired in `/repo`: an argument with exactly this key wins, be
+    it a plain or a sub-group argument - `findArg( key, true)` on `mArguments`, then on `mSubGroupArgs`; only
+    then the key is tried as abbreviation, `mArguments.findArg( key)` and when that finds nothing
+    `mSubGroupArgs.findArg( key)`.  The unchanged tree started with the two full lookups: an abbreviation of
+    a plain argument won over the exact key of a sub-group argument) -/
+def findArg2 (abbr : Bool) (args : List Arg) (k : Key) : Res (Option Arg) :=
+  match findExact k (plainArgs args) with
+  | some a => .ok (some a)
+  | none =>
+    match findExact k (subGroupArgs args) with
+    | some a => .ok (some a)
+    | none =>
+      match findArg abbr (plainArgs args) k with
+      | .ok none => findArg abbr (subGroupArgs args) k
+      | r => r
+
 /-- `Handler::helpArgument( raw, false)` for a key without `/`: (lines on the output stream, lines on the
     error stream).  The description is looked up with the key of the argument found
     (repaired: the unchanged tree used the key as typed and printed nothing for an abbreviation). -/
 def helpArgument (h : Handler) (raw : Str) (k : Key) : Res (List Str × List Str) :=
-  match findArg (!h.flags.noAbbr) h.args k with
+  match findArg2 (!h.flags.noAbbr) h.args k with
   | .ok (some a) =>
     .ok (("Argument '".toList ++ keyToString k ++ "', usage:".toList)
           :: emit [] (TextBlock.format ⟨3, 80, true⟩ (getArgDesc h.args a.key)), [])
   | .ok none => .ok ([], ["*** ERROR: Argument '".toList ++ raw ++ "' is unknown!".toList])
+  | .throw e => .throw e
+  | .oob w => .oob w
+
+/-! ### sub-group handlers: a handler tree of depth 2
+
+  `Handler sub( main_ah, flag_set)`; `main_ah.addArgument( "g", sub, desc)`.  The sub-group constructor takes
+  `mpUsageParams( main_ah.mpUsageParams)`: the whole tree has ONE `UsageParams` object.  The model keeps it in
+  `Tree.main.params`; a `SubHandler` has no parameters of its own, its listing is written with the shared
+  value as it is at that moment. -/
+
+/-- the standard arguments of a handler built with the sub-group constructor: `handleStartFlags()` only;
+    `hfArgHidden` / `hfUsageHidden` are evaluated by the other constructor only and have no effect here -/
+def subStdArgs (f : Flags) : List Arg := stdArgs { f with argHidden := false }
+
+structure SubHandler where
+  flags     : Flags
+  args      : List Arg
+  lineLen   : Nat := 80
+  /-- `mValue2Set` of the sub-group handler's own `--print-deprecated` (a `TypedArg< bool>` on the shared
+      `mPrintDeprecated`): the negation of the shared setting at the time the handler was constructed -/
+  deprValue : Bool
+deriving Repr
+
+/-- the sub-group handler as a handler that writes with the display settings `u` (the shared object) -/
+def SubHandler.asHandler (s : SubHandler) (u : UsageParams) : Handler :=
+  { flags := s.flags, args := s.args, lineLen := s.lineLen, params := u }
+
+structure Tree where
+  /-- the main handler; `main.params` is the one `UsageParams` object of the tree -/
+  main : Handler
+  /-- the handlers constructed with `Handler( main_ah, flags)`, in construction order -/
+  subs : List SubHandler := []
+deriving Repr
+
+def Tree.new (f : Flags) : Tree := { main := Handler.new f }
+
+/-- `Handler sub( main_ah, flag_set)`: `handleStartFlags()` - `hfUsageDeprecated` switches the SHARED setting
+    on, then `hfArgDeprecated` defines `--print-deprecated` with the negation of the setting as it is now -/
+def Tree.newSub (t : Tree) (f : Flags) : Tree :=
+  let u : UsageParams := { t.main.params with printDeprecated := t.main.params.printDeprecated || f.usageDeprecated }
+  { main := { t.main with params := u },
+    subs := t.subs ++ [{ flags := f, args := subStdArgs f, deprValue := !u.printDeprecated }] }
+
+def setAt {α : Type} (l : List α) (k : Nat) (x : α) : List α := l.set k x
+
+/-- `sub_k.addArgument( …)` + modifiers -/
+def Tree.subAddArgument (t : Tree) (k : Nat) (a : Arg) (mods : List Mod) : Res (Tree × Option Exc) :=
+  match t.subs[k]? with
+  | none => .oob "sub-group handler"
+  | some s =>
+    let r := (s.asHandler t.main.params).addArgument a mods
+    .ok ({ t with subs := setAt t.subs k { s with args := r.1.args } }, r.2)
+
+/-- `main_ah.addArgument( …)` + modifiers (plain argument, or the sub-group argument when `a.subGroup` is set) -/
+def Tree.addArgument (t : Tree) (a : Arg) (mods : List Mod) : Tree × Option Exc :=
+  let r := t.main.addArgument a mods
+  ({ t with main := r.1 }, r.2)
+
+/-- the argument object of `addArgument( key, subGroup, desc)`: `TypedArgBase( "sub-group", ValueMode::none, false)` -/
+def subGroupArg (key : Key) (desc : Str) (k : Nat) : Arg :=
+  { key := key, desc := desc, takesValue := false, isFlag := false, defaultText := none, printDefault := false,
+    subGroup := some k }
+
+/-- `main_ah.setUsageLineLength( n)`: `mDescription.setLineLength()` (throws outside 60..239), then
+    `mSubGroupArgs.setUsageLineLength()` hands the value to every sub-group handler entered by one of the
+    sub-group arguments defined so far -/
+def Tree.setLineLength (t : Tree) (n : Int) : Res Tree :=
+  match t.main.setLineLength n with
+  | .ok m =>
+    let ks := (subGroupArgs t.main.args).filterMap (·.subGroup)
+    .ok { main := m, subs := t.subs.zipIdx.map fun (s, i) => if ks.contains i then { s with lineLen := n.toNat } else s }
+  | .throw e => .throw e
+  | .oob w => .oob w
+
+/-- `sub_k.setUsageLineLength( n)` (a sub-group handler has no sub-groups here) -/
+def Tree.subSetLineLength (t : Tree) (k : Nat) (n : Int) : Res Tree :=
+  match t.subs[k]? with
+  | none => .oob "sub-group handler"
+  | some s =>
+    if n < 60 || n ≥ 240 then .throw .runtime_error
+    else .ok { t with subs := setAt t.subs k { s with lineLen := n.toNat } }
+
+/-- the standard arguments a sub-group handler can have -/
+inductive SubSwitch where
+  | printDeprecated | helpShort | helpLong
+deriving DecidableEq, Repr
+
+/-- one standard argument on the command line: evaluated by the main handler, or by sub-group handler `k`
+    (after its sub-group argument) -/
+inductive Ev where
+  | main (s : Switch)
+  | sub (k : Nat) (s : SubSwitch)
+deriving DecidableEq, Repr
+
+/-- `--help-short` / `--help-long` are `DEST_VAR_VALUE( mContents, …)`: `TypedArgValue::assign()` throws
+    `std::runtime_error` when the destination no longer holds the value it had at definition time (`all`) -/
+def setContents (u : UsageParams) (c : Contents) : Res UsageParams :=
+  if u.contents == .all then .ok { u with contents := c } else .throw .runtime_error
+
+/-- what one standard argument does to the shared parameters -/
+def Ev.apply (t : Tree) (u : UsageParams) : Ev → Res UsageParams
+  | .main .printHidden => .ok { u with printHidden := !t.main.flags.usageHidden }
+  | .main .printDeprecated => .ok { u with printDeprecated := !t.main.flags.usageDeprecated }
+  | .main .helpShort => setContents u .shortOnly
+  | .main .helpLong => setContents u .longOnly
+  | .sub k .printDeprecated =>
+    match t.subs[k]? with
+    | some s => .ok { u with printDeprecated := s.deprValue }
+    | none => .oob "sub-group handler"
+  | .sub _ .helpShort => setContents u .shortOnly
+  | .sub _ .helpLong => setContents u .longOnly
+
+/-- the standard arguments of a command line, in order, on the shared parameters -/
+def evalEvs (t : Tree) : List Ev → UsageParams → Res UsageParams
+  | [], u => .ok u
+  | e :: es, u =>
+    match Ev.apply t u e with
+    | .ok u' => evalEvs t es u'
+    | .throw x => .throw x
+    | .oob w => .oob w
+
+/-- the sub-group argument of handler `k` on the command line (`processArg()`: `handleIdentifiedArg()` ->
+    `TypedArgBase::assignValue()` throws `std::runtime_error` for a deprecated / replaced argument), then the
+    following arguments go to the sub-group handler -/
+def Tree.enter (t : Tree) (k : Nat) : Res SubHandler :=
+  match t.main.args.find? (fun a => a.subGroup == some k), t.subs[k]? with
+  | some a, some s => if a.deprecated then .throw .runtime_error else .ok s
+  | _, _ => .oob "sub-group handler"
+
+/-- the standard arguments `evs`, then the help argument of the main handler -/
+def Tree.usageMain (t : Tree) (evs : List Ev) : Res (List Str) :=
+  match evalEvs t evs t.main.params with
+  | .ok u => usage { t.main with params := u }
+  | .throw x => .throw x
+  | .oob w => .oob w
+
+/-- the standard arguments `evs`, then `-g -h`: the help argument of sub-group handler `k`.  Its
+    `ArgumentDesc` reads the shared parameters as they are now. -/
+def Tree.usageSub (t : Tree) (k : Nat) (evs : List Ev) : Res (List Str) :=
+  match t.enter k with
+  | .ok s =>
+    match evalEvs t evs t.main.params with
+    | .ok u => usage (s.asHandler u)
+    | .throw x => .throw x
+    | .oob w => .oob w
+  | .throw x => .throw x
+  | .oob w => .oob w
+
+/-- `-g --help-arg <key>`: `helpArgument()` of sub-group handler `k` -/
+def Tree.helpArgumentSub (t : Tree) (k : Nat) (raw : Str) (key : Key) : Res (List Str × List Str) :=
+  match t.enter k with
+  | .ok s => helpArgument (s.asHandler t.main.params) raw key
+  | .throw x => .throw x
+  | .oob w => .oob w
+
+/-- `--help-arg <g>/<rest>` on the main handler: `mSubGroupArgs.findArg( g)`, then the sub-group handler's
+    `helpArgument( rest)` (the sub-group argument is not "used": no deprecation check);
+    `full` = the complete string as typed (for the error text) -/
+def Tree.helpArgumentSlash (t : Tree) (full : Str) (g : Key) (rest : Str) (restKey : Key) :
+    Res (List Str × List Str) :=
+  match findArg (!t.main.flags.noAbbr) (subGroupArgs t.main.args) g with
+  | .ok (some a) =>
+    match a.subGroup.bind (t.subs[·]?) with
+    | some s => helpArgument (s.asHandler t.main.params) rest restKey
+    | none => .oob "sub-group argument"
+  | .ok none => .ok ([], ["*** ERROR: Sub-group argument '".toList ++ full ++ "' is unknown!".toList])
   | .throw e => .throw e
   | .oob w => .oob w
 
